@@ -67,6 +67,19 @@ def generate(tier, seed):
         content = lines_for(dn) + (lines_for(do) if same_shape else [])
         cases.append(case("eng", spec_of(do), adapter_F(content), "-", steps))
         dist["pairs"] += 1
+    # add_function first, then a set_model whose matcher CALLS that function (a user function, an overridden built-in):
+    # the reconfigured enforcer must still have it, as the fresh twin (same components) does
+    ufm = And(Call("uf1", V("r", "sub"), V("p", "sub")), Eq(V("r", "obj"), V("p", "obj")), Eq(V("r", "act"), V("p", "act")))
+    sp_uf = "r=sub,obj,act;p=sub,obj,act;e=AO;m={%s}" % ufm
+    for old in names:
+        for fn, newsp, dnew in (("uf1", sp_uf, K["acl"]), ("keyMatch", spec_of(K["keymatch"]), K["keymatch"])):
+            for u in ("eq", "prefix", "neq"):
+                if set(K[old]["g"].keys()) <= set(dnew["g"].keys()):
+                    steps = ["AF:%s:%s" % (fn, u), "SM:" + newsp, "FRESH"] + qblock(dnew)
+                    cases.append(case("eng", spec_of(K[old]), adapter_F(lines_for(dnew)), "-", steps))
+                    steps = ["AF:%s:%s" % (fn, u), "SM:" + newsp, "SR:10", "SA:" + adapter_F(lines_for(dnew)), "FRESH"] + qblock(dnew)
+                    cases.append(case("eng", spec_of(K[old]), adapter_F(lines_for(dnew)), "-", steps))
+                    dist["function_then_model"] = dist.get("function_then_model", 0) + 2
     n_seq = 250 if tier == "quick" else 20000
     for _ in range(n_seq):
         name = rnd.choice(names)
